@@ -176,7 +176,75 @@ def report(ctx, ns, seed, final_newline, charset, single, sym, detail):
 def shards(tier, seed):
     n = 4000 if tier == 'quick' else 150000
     k = 16 if tier == 'quick' else 48
-    return [{'part': 'docs', 'n': n // k + 1, 'sub': i} for i in range(k)] + [{'part': 'fixed'}]
+    return [{'part': 'docs', 'n': n // k + 1, 'sub': i} for i in range(k)] + [{'part': 'fixed'}] + \
+        [{'part': 'reread', 'n': 300 if tier == 'quick' else 6000}] + \
+        [{'part': 'cold-start', 'rounds': 10 if tier == 'quick' else 100}]
+
+
+def reread_part(spec, ctx):
+    """The same text read twice: the caller does what it likes with the first result (here: wrecks every mutable part of
+    it), the second reading still gives the value the text denotes - at document level and at scalar level."""
+    import hszinc
+    r = random.Random(ctx.seed * 1000003 + 3131)
+    gen = D.Gen(r)
+    W = refzinc.Writer(None)
+    W.v3 = True
+    for i in range(spec['n']):
+        if i % 2 == 0:
+            n = gen.value(True, kinds=['list', 'dict', 'grid', 'xstr'])
+            if not all(expressible_value(x) for _, x in D.walk(n, 'top')):
+                continue
+            try:
+                text = W.val(n)
+            except Exception:
+                continue
+            kw = [{}, {'charset': 'utf-8'}][i % 4 // 2]
+            data = text.encode('utf-8') if kw else text
+            ctx.case('reread-scalar', text)
+            try:
+                first = hszinc.parse_scalar(data, mode=hs.ZINC, version='3.0', **kw)
+                if D.diff(n, hs.from_hs(first), False):
+                    ctx.count('first reading already differs (the document workloads report it)')
+                    continue
+                hs.wreck(first)
+                second = hszinc.parse_scalar(data, mode=hs.ZINC, version='3.0', **kw)
+                d = D.diff(n, hs.from_hs(second), False)
+            except Exception as e:   # noqa
+                d = ('', 'reread-raises:' + type(e).__name__, str(e)[:120])
+            ctx.count('scalars read twice')
+            if d:
+                ctx.violation({'part': 'history', 'format': 'zinc', 'position': 'scalar', 'kind': D.kind(n), 'symptom': 'second-reading-differs',
+                               'features': ['entry=parse_scalar']},
+                              'parse_scalar(%r) read again after the caller changed the first result: %s: %s' % (text[:200], d[1], d[2]),
+                              {'reread_scalar': D.enc(n)})
+                return
+        else:
+            g = gen.grid('3.0', small=True)
+            if not expressible(g):
+                continue
+            text = refzinc.Writer(None).doc([g])
+            ctx.case('reread-doc', text)
+            try:
+                first = hszinc.parse(text, mode=hs.ZINC)
+                if D.grid_diff(g, hs.from_grid(first), False):
+                    continue
+                hs.wreck(first)
+                second = hszinc.parse(text, mode=hs.ZINC)
+                d = D.grid_diff(g, hs.from_grid(second), False)
+            except Exception as e:   # noqa
+                d = ('', 'reread-raises:' + type(e).__name__, str(e)[:120])
+            ctx.count('documents read twice')
+            if d:
+                ctx.violation({'part': 'history', 'format': 'zinc', 'position': 'document', 'kind': 'grid', 'symptom': 'second-reading-differs',
+                               'features': ['entry=parse']},
+                              'a document read again after the caller changed the first result: %s: %s | text %r' % (d[1], d[2], text[:200]),
+                              {'reread_doc': D.enc(g)})
+                return
+    ctx.sample({'reread': 'parse / parse_scalar twice, first result wrecked in between'})
+
+
+def expressible_value(x):
+    return expressible(('grid', '3.0', (), (('a', ()),), ((('a', x),),))) if x[0] != 'grid' else expressible(x)
 
 
 FIXED = [
@@ -185,8 +253,27 @@ FIXED = [
 ]
 
 
+def cold_start_part(spec, ctx):
+    """The process's first zone lookups, from six threads at once, are readings of documents with named zones."""
+    import pytz
+    from vf.props import c17
+
+    def work(Z, tz, t):
+        loc = pytz.utc.localize(t).astimezone(tz)
+        n = ('dt', (loc.year, loc.month, loc.day, loc.hour, loc.minute, loc.second, loc.microsecond),
+             int(loc.utcoffset().total_seconds()), Z)
+        g = ('grid', '3.0', (('when', n),), (('ts', ()),), ((('ts', n),),))
+        sym, detail, art = judge_doc([g], 11, None, True, 'str', True)
+        return [(sym, '%s | text %r' % (detail, art['text'][:160])) if sym else None]
+    c17.cold_start(spec, ctx, work, {'part': 'cold-start', 'format': 'zinc', 'position': 'cell', 'kind': 'dt'})
+
+
 def run_shard(spec, ctx):
+    if spec['part'] == 'cold-start':
+        return cold_start_part(spec, ctx)
     import hszinc
+    if spec['part'] == 'reread':
+        return reread_part(spec, ctx)
     if spec['part'] == 'fixed':
         for text, single, exp in FIXED:
             for data in (text, text.encode('utf-8')):
@@ -256,7 +343,11 @@ def run_shard(spec, ctx):
 
 
 def replay(case, ctx):
+    if case.get('cold_start'):
+        return cold_start_part({'part': 'cold-start', 'rounds': 30}, ctx)
     import hszinc
+    if 'reread_scalar' in case or 'reread_doc' in case:
+        return reread_part({'n': 300}, ctx)
     if 'fixed' in case:
         run_shard({'part': 'fixed'}, ctx)
         return
